@@ -124,10 +124,25 @@ def run(repo, rep, tier):
         not any(cfgmod.build(rtd).paths_avoiding(cfgmod.build(rtd).node_of(upd[0]), cfgmod.build(rtd).node_of(r), set()) for r in rows)
     rep.ob("C02.R3", upd[0] if upd else rtd, "objects are copied to the file store after the last tile is encoded", ok, "", key="C02.R3@copy-after")
     di = repo.func("model.py", "DataLists.init")
-    s = U(di).replace(" ", "")
-    ok = all(x in s for x in ("['by_key']={}", "['by_value']={}", "['key_index']={}", "['next_key']=1", ".nextListID=1")) and "clear_field_container(self._datalists[table_id]['datalist'].entries)" in s
+    from ..symexec import const_key_stores
+    stores_, recv_ = const_key_stores(di, {"self._datalists[table_id]"})
+    miss = []
+    for k_ in ("by_key", "by_value", "key_index"):
+        vs = stores_.get(k_, [])
+        if not (vs and all(isinstance(v, ast.Dict) and not v.keys for v, _ in vs)):
+            miss.append(f"{k_} is not replaced by a new empty dict")
+    if not (stores_.get("next_key") and all(try_const(v) == 1 for v, _ in stores_["next_key"])):
+        miss.append("next_key is not reset to 1")
+    dl = {f"{r}['datalist']" for r in recv_}
+    if not any(isinstance(n, ast.Assign) and isinstance(n.targets[0], ast.Attribute) and n.targets[0].attr == "nextListID" and U(n.targets[0].value) in dl
+               and try_const(n.value) == 1 for n in body_walk(di)):
+        miss.append("nextListID is not reset to 1")
+    if not any(isinstance(n, ast.Call) and call_name(n) == "clear_field_container" and n.args and isinstance(n.args[0], ast.Attribute) and n.args[0].attr == "entries"
+               and U(n.args[0].value) in dl for n in body_walk(di)):
+        miss.append("the stored entries are not cleared")
+    ok = not miss
     rep.ob("C02.R3", di, "DataLists.init empties both indexes, the key counter and the stored entries together", ok,
-           "" if ok else "index and stored entries can disagree after the reset", key="C02.R3@init-complete")
+           "" if ok else "; ".join(miss) + ": index and stored entries can disagree after the reset", key="C02.R3@init-complete")
     its = repo.func("model.py", "_NumbersModel.init_table_strings")
     ok = "self._table_strings.init(table_id)" in U(its)
     rep.ob("C02.R3", its, "only the string list is reset on save", ok, "", key="C02.R3@init-strings")
@@ -137,9 +152,12 @@ def run(repo, rep, tier):
             resets.append(U(n))
     rep.ob("C02.R3", rtd, "format/style/formula/control lists are never reset (cells keep their keys)", not resets, f"{resets}", key="C02.R3@no-other-reset")
     # row info encodes every column of the row
-    rri = repo.func("model.py", "_NumbersModel.recalculate_row_info")
-    ok = "for col in range(len(data[row]))" in U(rri) and "data[row][col]._to_buffer()" in U(rri)
-    rep.ob("C02.R3", rri, "every cell of the row is encoded in column order", ok, "", key="C02.R3@row-all-cells")
+    from ..rowpack import model as rowpack_model
+    rp = rowpack_model(repo)
+    rri = rp["func"]
+    probs = [x for x in rp["problems"] if "cell loop runs over" in x or "leaves the loop" in x or "not the cell at" in x]
+    ok = rp["visits_all"] and rp["cell_ok"] and not probs
+    rep.ob("C02.R3", rp["loop"], "every cell of the row is encoded in column order", ok, "; ".join(probs), key="C02.R3@row-all-cells")
 
     # ---- R4 read accessors are pure w.r.t. saved state
     ea = EffectAnalysis(repo)
